@@ -365,6 +365,19 @@ def inplaceP (guard : Bool) (op : Op) (a bc : Nat) (out : Option Nat) (dtype : O
   let s := write o (s.val a) s
   .ok o (write o (.ap op (s.val o) (readWhile s o bc)) s)
 
+/-- the whole flow of `hitmiss` (round 4): its hand-written validation (`hitmissOut`; the first failing test in source order:
+shape, contiguity, dtype), the uint8 view of a bool buffer (same buffer identity), the aliasing guard
+`if np.may_share_memory(input, out): input = input.copy()`, then the native kernel -/
+def hitmissP (guard : Bool) (inp bc : Nat) (out : Option Nat) (s : St) : R Nat :=
+  match hitmissOut (s.desc inp) (out.map s.desc), out with
+  | .fresh, _ =>
+    (alloc (s.desc inp) .undef s).bind fun o s => .ok o (kernelWrite .kernel inp bc o s)
+  | .useOut, some o | .useView, some o =>
+    (unalias guard inp o s).bind fun inp' s => .ok o (kernelWrite .kernel inp' bc o s)
+  | _, some o =>
+    .raise (if (s.desc o).shape ≠ (s.desc inp).shape then .shape else if !(s.desc o).ccontig then .contig else .dtype) s
+  | _, none => .raise .dtype s
+
 /-! ### initial states -/
 
 /-- heap at call time: inputs `0 … k-1` (content `inp i`), then the user's `out` (content `old`) -/
@@ -449,6 +462,7 @@ def handle (a : Args) : String :=
       | "tophat_close" => (some (tophatCloseGP g 0 1), two)
       | "tophat_open" => (some (tophatOpenGP g 0 1), two)
       | "inplace" => (some (fun o => inplaceP g .kernel 0 1 o dt), two)
+      | "hitmiss" => (some (hitmissP g 0 1), two)
       | "gaussian" => (some (fun o => gaussRepairedP 0 1 o arr.shape.length), two)
       | _ => (none, two)
     match run with
